@@ -427,6 +427,20 @@ def handle (op : String) : P String := do
       pure (respond (n.bind (fun n => (n.learn xs ts val batch epochs script).bind (fun r1 => r1.net.learn xs ts val batch epochs script))) (fun r =>
         s!"{r.trainLoss.length} {r.valLoss.length} {r.valAcc.length} " ++ rV1 r.trainLoss ++ " | " ++ rV1 r.valLoss ++ " | " ++
           rV1 r.valAcc ++ " | " ++ rNetParams r.net ++ " flags " ++ " ".intercalate (r.net.flags.map rBool)))
+    | "learnon" => do
+      -- every training flag is already set when `learn` is entered
+      let k ← nat; let (xs, ts) ← samples k
+      let hasVal ← boolean
+      let val ← if hasVal then (do
+          let kv ← nat; let (vx, vt) ← samples kv; let thr ← nat
+          pure (some (vx, vt, thr))) else pure none
+      let batch ← nat; let epochs ← nat
+      let ns ← nat; let script ← many flt ns
+      -- `print` (how often progress is printed): has no effect on what `learn` computes, so the model ignores it
+      let _print ← optTrailingNat
+      pure (respond (n.bind (fun n => (n.setAllTraining true).learn xs ts val batch epochs script)) (fun r =>
+        s!"{r.trainLoss.length} {r.valLoss.length} {r.valAcc.length} " ++ rV1 r.trainLoss ++ " | " ++ rV1 r.valLoss ++ " | " ++
+          rV1 r.valAcc ++ " | " ++ rNetParams r.net ++ " flags " ++ " ".intercalate (r.net.flags.map rBool)))
     | "learn" => do
       let k ← nat; let (xs, ts) ← samples k
       let hasVal ← boolean
